@@ -577,6 +577,7 @@ def run_batch(pid: str, tier: str, verif_seed: int, runs: Optional[int], workers
         "wall_s": round(wall, 2),
         "violations": len(unknown),
     }
+    doc = _finite(doc)  # strict JSON: no Infinity/NaN literals in evidence
     try:
         validate_evidence(doc)
     except Exception as exc:
@@ -593,6 +594,16 @@ def run_batch(pid: str, tier: str, verif_seed: int, runs: Optional[int], workers
         exit_code = 2
     print(f"{pid} {tier}: runs={done_runs} decided={evaluations} distinct={len(sigs)} violations={len(unknown)} known={sum(known_hits.values())} wall={wall:.1f}s digest={batch_digest[:12]}", flush=True)
     return exit_code
+
+
+def _finite(obj: Any) -> Any:
+    if isinstance(obj, float) and (obj != obj or obj in (float("inf"), float("-inf"))):
+        return repr(obj)
+    if isinstance(obj, dict):
+        return {k: _finite(v) for k, v in obj.items()}
+    if isinstance(obj, (list, tuple)):
+        return [_finite(v) for v in obj]
+    return obj
 
 
 def _seam_notes(prop) -> List[str]:
